@@ -17,8 +17,8 @@ META = dict(
               'differential harness over generated simple polygons with holes',
     category='proof')
 
-QUICK = dict(spec=1700, multi=250, inf=300, plan=500, raw=900)
-THOROUGH = dict(spec=14000, multi=2000, inf=2000, plan=4000, raw=8000)
+QUICK = dict(spec=1700, multi=250, inf=300, plan=500, raw=900, tiny=140, cb=260)
+THOROUGH = dict(spec=14000, multi=2000, inf=2000, plan=4000, raw=8000, tiny=700, cb=2500)
 
 DELTAS = [0.49, 0.5, 0.51, 1, 1.5, 2.25, 5]
 
@@ -135,6 +135,13 @@ def run_kind(ctx, T, rng, kind, cases):
         oc.raw_tie(ctx, T, cases, 'C06 raw', 'c06-raw')
     elif kind == 'c06-inf':
         inflate_vs_execute(ctx, T, cases)
+    elif kind in ('c06-cbraw', 'c06-cbapi'):
+        for c in cases:
+            c['paths'] = [[tuple(v) for v in p] for p in c['paths']]
+        if kind == 'c06-cbraw':
+            oc.callback_raw_tie(ctx, T, cases, 'C06 callback raw', 'c06-cbraw')
+        else:
+            oc.callback_api_eval(ctx, T, cases, 'C06 callback', 'c06-cbapi')
     else:
         raise vf.Infra('unknown replay kind %r' % kind)
 
@@ -215,8 +222,18 @@ def run(ctx):
 
     # raw curve tie, bit exact
     r4 = rng.fork(4)
-    nbr = oc.raw_tie(ctx, T, raw_cases(r4, B['raw']), 'C06 raw', 'c06-raw')
+    nbr = oc.raw_tie(ctx, T, raw_cases(r4, B['raw']) + oc.tiny_raw_cases(r4, B['tiny'], True), 'C06 raw', 'c06-raw')
     ctx.log('raw tie: %d breaks' % nbr)
+
+    # delta callbacks (values of either sign, zero / below floating_point_tolerance at some or all vertices): raw curves judged
+    # vertex by vertex, and the public entry points Execute(cb, paths) / SetDeltaCallback / tree overload / non-empty containers
+    r5 = rng.fork(5)
+    cbc = [oc.gen_cb_case(r5, True) for _ in range(B['cb'])]
+    ncb = oc.callback_raw_tie(ctx, T, cbc, 'C06 callback raw', 'c06-cbraw')
+    ncb += oc.callback_api_eval(ctx, T, cbc, 'C06 callback', 'c06-cbapi')
+    for c in cbc:
+        ctx.hist('callback_selection', oc.SEL[c['sel']])
+    ctx.log('delta callbacks: %d cases, %d failing' % (len(cbc), ncb))
     dump_debug(ctx)
 
     ties_broken = any(v['key'].startswith('tie-break') for v in ctx.violations[nv0:])
